@@ -589,6 +589,10 @@ int driver_main(int argc, char** argv, Engine& e)
     Shrinker sh{e, o1.cls, budget};
     Plan m = sh.run(p);
     Outcome om = execute_isolated(e, m, true);
+    // a crash whose kind depends on where the wild access lands may not repeat with the same class: try again,
+    // then fall back to the unshrunk plan (which was confirmed twice above)
+    for (int attempt = 0; attempt < 3 && (om.ok || om.cls != o1.cls); attempt++) om = execute_isolated(e, m, true);
+    if (om.ok || om.cls != o1.cls) { m = p; om = execute_isolated(e, m, true); }
     if (om.ok || om.cls != o1.cls) { printf("shrink: minimised plan lost the violation\n"); return 2; }
     std::string j = replay_json(e, m, om, sh.runs, before);
     if (!write_file(out, j)) { fprintf(stderr, "cannot write %s\n", out.c_str()); return 2; }
